@@ -79,9 +79,11 @@ class Evaluator:
                 raise Unsupported("too many paths")
             self.decisions = dict(dec)
             self.forced: list = []
-            env = dict(self.binding)
+            # concrete lists are mutable (append / extend are modelled in place, which also gives aliasing for free):
+            # every path starts from its own copies
+            env = {k: (list(v) if isinstance(v, list) else v) for k, v in self.binding.items()}
             if extra:
-                env.update(extra)
+                env.update({k: (list(v) if isinstance(v, list) else v) for k, v in extra.items()})
             try:
                 ret = self._block(stmts, env)
             except Fork as f:
@@ -102,6 +104,20 @@ class Evaluator:
         return None
 
     def _stmt(self, st, env):
+        if getattr(self, "lenient", False) and isinstance(st, (ast.Assign, ast.AugAssign, ast.AnnAssign, ast.Expr)):
+            try:
+                return self._stmt0(st, env)
+            except Unsupported:
+                tg = st.targets if isinstance(st, ast.Assign) else [st.target] if hasattr(st, "target") else []
+                for t in tg:
+                    try:
+                        self._bind(t, Sym(norm(t)), env)
+                    except Unsupported:
+                        pass
+                return None
+        return self._stmt0(st, env)
+
+    def _stmt0(self, st, env):
         if isinstance(st, ast.Return):
             return ("ret", self.ev(st.value, env) if st.value is not None else None)
         if isinstance(st, ast.Assign):
@@ -144,6 +160,15 @@ class Evaluator:
             return None
         if isinstance(st, ast.Raise):
             return ("ret", Sym("raise", {("raise", norm(st.exc)[:40] if st.exc else "")}))
+        if isinstance(st, ast.Try) and getattr(self, "lenient", False):
+            # over-approximation for tag collection: the body and every handler are evaluated one after the other
+            for blk in [st.body] + [h.body for h in st.handlers] + [st.orelse, st.finalbody]:
+                r = self._block(blk, env)
+                if r is not None and blk is st.finalbody:
+                    return r
+            return None
+        if isinstance(st, ast.With) and getattr(self, "lenient", False):
+            return self._block(st.body, env)
         if isinstance(st, (ast.For, ast.While, ast.Try, ast.With)):
             if getattr(self, "skip_loops", False) and isinstance(st, (ast.For, ast.While)):
                 # opaque loop: everything it assigns becomes an unknown symbolic value
@@ -282,6 +307,12 @@ class Evaluator:
             return out
         if isinstance(e, ast.Dict):
             return Sym(norm(e)[:40])
+        if isinstance(e, (ast.DictComp, ast.SetComp, ast.Set)):
+            tags = frozenset()
+            for sub in ast.iter_child_nodes(e):
+                if isinstance(sub, ast.expr):
+                    tags |= all_tags(self._try(sub, dict(env)))
+            return Sym(norm(e)[:60], tags)
         if isinstance(e, (ast.ListComp, ast.GeneratorExp)):
             if len(e.generators) != 1:
                 raise Unsupported("nested comprehension")
@@ -350,6 +381,9 @@ class Evaluator:
                 kwtags.add(("kw", k, "sym:" + _txt(v)))
         argtags = frozenset().union(*(all_tags(a) for a in args), *(all_tags(v) for v in kws.values())) if (args or kws) else frozenset()
         f = e.func
+        seen = env.setdefault("__tags__", set())
+        seen.update(kwtags)
+        seen.add(("call", f.attr if isinstance(f, ast.Attribute) else (dotted(f) or "?")))
         if isinstance(f, ast.Attribute):
             base = self.ev(f.value, env) if not (isinstance(f.value, ast.Name) and f.value.id not in env) else Sym(f.value.id)
             if isinstance(base, Sym):
@@ -358,8 +392,24 @@ class Evaluator:
                 return Sym(f"{base.text}.{f.attr}(..)", base.tags | argtags | kwtags | {t, ("callpos", f.attr, pos)})
             if isinstance(base, (list, tuple)) and f.attr in ("copy",):
                 return list(base)
+            if isinstance(base, list) and f.attr == "append" and len(args) == 1:
+                base.append(args[0])
+                return None
+            if isinstance(base, list) and f.attr == "extend" and len(args) == 1:
+                if isinstance(args[0], (list, tuple)):
+                    base.extend(args[0])
+                else:
+                    base.append(args[0].tag(("extended",)) if isinstance(args[0], Sym) else args[0])
+                return None
+            if isinstance(base, list) and f.attr == "clear" and not args:
+                base.clear()
+                return None
             raise Unsupported(f"method call on concrete value {norm(e)[:40]}")
         name = dotted(f) or norm(f)
+        if isinstance(f, ast.Name) and isinstance(env.get(f.id), Sym):
+            # a function value chosen earlier (`combine = sqa.union if distinct else sqa.union_all; combine(l, r)`)
+            name = env[f.id].text
+            return Sym(f"{name}(..)", env[f.id].tags | argtags | kwtags | {("call", name.split(".")[-1]), ("call", name), ("callpos", name, tuple(_txt(a) for a in args))})
         if name in ("list", "tuple") and args and isinstance(args[0], (list, tuple)):
             return list(args[0])
         if name == "zip" and all(isinstance(a, (list, tuple)) for a in args):
@@ -381,3 +431,26 @@ def valuations(domains: dict):
     keys = list(domains)
     for combo in itertools.product(*(domains[k] for k in keys)):
         yield dict(zip(keys, combo))
+
+
+def filter_destinations(stmts, qname, subject, binding):
+    """evaluate a (Filter) slice under `binding`; for each outcome return the set of `query.<field>` lists that received
+    the verb's predicates (`<subject>.predicates`), following aliases and conditional expressions"""
+    ev = Evaluator(dict(binding))
+    ev.lenient = True
+    ev.skip_loops = True
+    outs = ev.run_block(stmts)
+    res = []
+    for _ret, env, _d in outs:
+        dest = set()
+        for k, v in env.items():
+            if not k.startswith(qname + "."):
+                continue
+            items = v if isinstance(v, list) else [v]
+            for it in items:
+                if isinstance(it, Sym) and (it.text == f"{subject}.predicates" or f"{subject}.predicates" in it.text) :
+                    dest.add(k)
+                elif isinstance(it, Sym) and any(t[0] == "callpos" and t[1] in ("extend", "append") and any(f"{subject}.predicates" in str(x) for x in t[2]) for t in it.tags):
+                    dest.add(k)
+        res.append(dest)
+    return res
